@@ -183,21 +183,21 @@ Qed.
 
 Definition pstep (O : oracle) (c : cfg) (syms : list sym) (acc : mem * stats * bool) (a : N) :=
   let '(st, found) := acc in
-  match find_sym syms a with
+  match resolve_target syms a with
   | None => (visit O c st (fake_sym a), true)
   | Some s => if skip_sym s then acc else (visit O c st s, true)
   end.
 Lemma patchable_loop_mem O c syms targets : forall m k f,
   fst (fst (fold_left (pstep O c syms) targets (m, k, f)))
   = fold_left (mstep O c)
-      (flat_map (fun a => match find_sym syms a with
+      (flat_map (fun a => match resolve_target syms a with
                           | Some s => if skip_sym s then [] else [s]
                           | None => [fake_sym a]
                           end) targets) m.
 Proof.
   induction targets as [|a targets IH]; intros m k f; [reflexivity|].
   cbn [fold_left flat_map]. rewrite fold_left_app. unfold pstep at 2.
-  destruct (find_sym syms a) as [s|].
+  destruct (resolve_target syms a) as [s|].
   - destruct (skip_sym s); [apply IH|].
     destruct (visit O c (m, k) s) as [m1 k1] eqn:V. rewrite IH. cbn [fold_left]. f_equal.
     unfold mstep. rewrite (visit_fst_indep O c m stats0 k). now rewrite V.
@@ -215,7 +215,7 @@ Proof.
     destruct (fold_left _ syms (m, k)) as [m1 k1] eqn:F. cbn [fst].
     pose proof (normal_loop_mem O c syms m k) as H. rewrite F in H. exact H. }
   destruct (c_ty c); try exact N.
-  unfold patch_patchable_func_matched. fold (pstep O c syms).
+  unfold patch_patchable_func_matched, patchable_loop. fold (pstep O c syms).
   destruct (fold_left (pstep O c syms) targets (m, k, false)) as [[m1 k1] f1] eqn:F. cbn [fst].
   pose proof (patchable_loop_mem O c syms targets m k false) as H. rewrite F in H. exact H.
 Qed.
